@@ -249,6 +249,40 @@ func subC05(out string, seed uint64, tier string, arg string) {
 		}
 		rep.sample(map[string]interface{}{"object": o.Name, "kind": o.Kind})
 	}
+	// ---- the empty history: every corpus object (plus one mutant each in thorough) linted alone in a new process, compared
+	// with what this process — which by now has linted everything else — answers for the same bytes
+	var probe []*Obj
+	for i, o := range objs {
+		if tier != "thorough" && i%2 == 1 {
+			continue
+		}
+		probe = append(probe, o)
+		if tier == "thorough" {
+			probe = append(probe, mutants(o, rng, 1, rep)...)
+		}
+	}
+	fresh := freshBaselines(probe)
+	for i, o := range probe {
+		if strings.HasPrefix(fresh[i], "ERR") || fresh[i] == "" {
+			rep.count("fresh:" + strings.SplitN(fresh[i]+" ", " ", 3)[1])
+			continue
+		}
+		b := o.reparse()
+		if b == nil {
+			continue
+		}
+		rs, p := lintObj(b, g)
+		if p != "" || rs == nil {
+			continue
+		}
+		rep.Evaluations++
+		rep.count("fresh:compared")
+		if here := canonRS(rs); here != fresh[i] {
+			d := firstDiff(fresh[i], here)
+			name := strings.SplitN(d, "=", 2)[0]
+			rep.violate(Violation{"C05", fmt.Sprintf("%s linted alone in a new process and linted here after other objects give different results: %s (fresh vs here)", o.Name, d), "fresh-process:" + name, replayOf(o, map[string]interface{}{"diff": d})})
+		}
+	}
 	rep.write(filepath.Join(out, "report.json"))
 }
 
